@@ -45,6 +45,8 @@ def model(files, opt):
     """files: list of (records, entry, offset). Returns ('autofail',) or ('ok', bytes, overlap)"""
     seg = opt.get('seg', 1)
     flt = opt.get('f')
+    if flt is not None and 'nf' in opt:
+        flt = [x for x in flt if x not in opt['nf']] or None      # ids taken off the list again with +f; an empty list is no filter
     sel = []
     entry = None
     for recs, ent, off in files:
@@ -118,6 +120,8 @@ def argv(opt):
         a += ['-s']
     if 'f' in opt:
         a += ['-f', ','.join(hex(x) for x in opt['f'])]
+    if 'nf' in opt:
+        a += ['+f', ','.join(hex(x) for x in opt['nf'])]
     if 'seg' in opt:
         a += ['-segment', {1: 'code', 2: 'data'}[opt['seg']]]
     return a
@@ -125,7 +129,8 @@ def argv(opt):
 
 OPTS1 = [{'r': r} for r in [(None, None), (0, 15), (2, 5), (None, 4), (3, None), (32, 47)]] + [{'l': 0}, {'l': 0xa5}] + \
         [{'m': m} for m in LANES if m != 'ALL'] + [{'S': S} for S in (1, 2, 4, -2, -4)] + [{'e': 0x1234}] + [{'s': True}] + \
-        [{'f': [0x41]}, {'f': [0x70]}, {'f': [0x76]}, {'f': [0x12]}, {'f': [0x41, 0x70]}] + [{'seg': 2}]
+        [{'f': [0x41]}, {'f': [0x70]}, {'f': [0x76]}, {'f': [0x12]}, {'f': [0x41, 0x70]}] + [{'seg': 2}] + \
+        [{'f': [0x41, 0x70], 'nf': [0x41]}, {'f': [0x70, 0x41, 0x76], 'nf': [0x70]}, {'f': [0x41, 0x76, 0x70], 'nf': [0x76]}, {'f': [0x41], 'nf': [0x41]}]
 
 
 def optsets(k):
